@@ -44,6 +44,8 @@ Wide ==
   \cup {Struct(N_A, <<a, b>>, Fields(2)) : a \in Scalars, b \in Scalars}
   \cup {Tuple(<<a, b, c>>) : a \in {I32, Str_, Sc("m")}, b \in {Sc("o"), Sc("b")}, c \in {Sc("X"), Sc("L"), Sc("v")}}
   \cup {Struct(N_Template, <<a, b, c>>, Fields(3)) : a \in {I32, Sc("m")}, b \in {Sc("o"), Sc("w")}, c \in {Sc("C"), Sc("f")}}
+  \cup {Struct(N_A, <<I32>>, <<w>>) : w \in WordNames}
+  \cup {Struct(N_Point, <<Str_, List(Struct(N_A, <<I32>>, <<w>>))>>, <<w, <<"x">>>>) : w \in WordNames}
 
 \* the generator's initial types
 Base == Scalars \cup {Tuple(<<>>)} \cup {Struct(n, <<>>, <<>>) : n \in Names}
